@@ -42,7 +42,9 @@ listen_dep  yes
 import nfc.clf
 from . import pn53x
 
+import os
 import time
+import errno
 
 import logging
 log = logging.getLogger(__name__)
@@ -139,12 +141,18 @@ class Chipset(pn53x.Chipset):
 
     def _read_register(self, data):
         data = self.command(0x06, data, timeout=0.25)
+        if len(data) == 0:
+            self.log.error("missing status byte in response")
+            raise IOError(errno.EIO, os.strerror(errno.EIO))
         if data[0] != 0:
             self.chipset_error(data)
         return data[1:]
 
     def _write_register(self, data):
         data = self.command(0x08, data, timeout=0.25)
+        if len(data) == 0:
+            self.log.error("missing status byte in response")
+            raise IOError(errno.EIO, os.strerror(errno.EIO))
         if data[0] != 0:
             self.chipset_error(data)
 
